@@ -90,6 +90,34 @@ impl Hash for MHash {
     fn result(&mut self, _: &mut [u8]) {}
 }
 
+#[cfg(feature = "hfs")]
+struct MKem(&'static str);
+#[cfg(feature = "hfs")]
+impl snow::types::Kem for MKem {
+    fn name(&self) -> &'static str {
+        self.0
+    }
+    fn pub_len(&self) -> usize {
+        0
+    }
+    fn ciphertext_len(&self) -> usize {
+        0
+    }
+    fn shared_secret_len(&self) -> usize {
+        0
+    }
+    fn generate(&mut self, _: &mut dyn Random) {}
+    fn pubkey(&self) -> &[u8] {
+        &[]
+    }
+    fn encapsulate(&self, _: &[u8], _: &mut [u8], _: &mut [u8]) -> Result<(usize, usize), snow::Error> {
+        Ok((0, 0))
+    }
+    fn decapsulate(&self, _: &[u8], _: &mut [u8]) -> Result<usize, snow::Error> {
+        Ok(0)
+    }
+}
+
 fn dh_name(c: &DHChoice) -> &'static str {
     match c {
         DHChoice::Curve25519 => "25519",
@@ -138,6 +166,14 @@ impl CryptoResolver for Marker {
     fn resolve_cipher(&self, c: &CipherChoice) -> Option<Box<dyn Cipher>> {
         if self.provides("cipher", cipher_name(c)) {
             Some(Box::new(MCipher(self.tag)))
+        } else {
+            None
+        }
+    }
+    #[cfg(feature = "hfs")]
+    fn resolve_kem(&self, _: &snow::params::KemChoice) -> Option<Box<dyn snow::types::Kem>> {
+        if self.provides("kem", "Kyber1024") {
+            Some(Box::new(MKem(self.tag)))
         } else {
             None
         }
@@ -197,6 +233,8 @@ pub fn main(o: &Opts) -> Result<i32, String> {
                 };
                 fr.resolve_hash(&c).map(|d| d.name().to_string()).unwrap_or("none".into())
             },
+            #[cfg(feature = "hfs")]
+            "kem" => fr.resolve_kem(&snow::params::KemChoice::Kyber1024).map(|d| d.name().to_string()).unwrap_or("none".into()),
             _ => return Err("kind".into()),
         };
         n += 1;
